@@ -90,6 +90,9 @@ func genCase(t *rapid.T) Case {
 		}
 		c.Others = append(c.Others, ps)
 	}
+	if fam, pool := gen.Names(t); fam != "plain" && len(c.Others) > 0 {
+		c.NameFamily, c.Names = fam, pool[1:]
+	}
 	c.TLS = rapid.IntRange(0, 7).Draw(t, "inside-tls") == 3
 	nd := rapid.IntRange(0, 6).Draw(t, "ndeclared")
 	c.Declared = []uint32{}
